@@ -438,12 +438,16 @@ Definition check_tag_cfg (c : cfg) (x : pybind_case) : bool :=
   res_eqb binding_eqb errk_sim (impl_bind c py_special true SV CV F call) obs.
 Definition check_tag := check_tag_cfg current_cfg.
 
-(* (iii) a validator called directly: (fast path?, signature, params, extra_kwargs, (args, kwargs) or error) *)
-Definition validate_case := (bool * sig * list (option str * N) * list (str * N) * res (list N * list (str * N)))%type.
+(* (iii) one validation path (fast path?) followed by the real call of render() with what it returned:
+   (fast path?, signature, params, extra_kwargs, what the call did) *)
+Definition validate_case := (bool * sig * list (option str * N) * list (str * N) * res binding)%type.
 Definition check_validate_cfg (c : cfg) (x : validate_case) : bool :=
   let '(use_code, F, ps, extra, obs) := x in
-  res_eqb (fun a b => list_eqb N.eqb (fst a) (fst b) && kwl_eqb (ksort (snd a)) (ksort (snd b))) errk_sim
-          (validate_params c use_code F ps extra) obs.
+  res_eqb binding_eqb errk_sim
+          (match validate_params c use_code F ps extra with
+           | Err e => Err e
+           | Ok (args, kwargs) => py_call F (SV :: CV :: args) kwargs
+           end) obs.
 Definition check_validate := check_validate_cfg current_cfg.
 
 (* (i)+(ii) on one literal: (signature, call, what Python did, what the tag did) *)
